@@ -399,6 +399,7 @@ class Model(object):
             s = np.maximum(s, floor_val)
             S = LA.diagsvd(s, k, k)  # s from vector to matrix of correct shape
             self.model_jac = np.dot(U, np.dot(S, Vt))  # reconstruct J from new svd
+            self.model_const = dg[0,:] - np.dot(self.model_jac, xopt)  # J has changed, so keep interpolating the data at xopt (and all points)
 
         interp_error = 0.0
         if verbose:
